@@ -39,7 +39,7 @@ func loadFindings(verifDir string) []*Finding {
 	return kf.Findings
 }
 
-var ordRe = regexp.MustCompile(`#\d+$`)
+var ordRe = regexp.MustCompile(`(/\d+)?(#\d+)?$`)
 
 func baseName(n string) string { return ordRe.ReplaceAllString(n, "") }
 
